@@ -4,6 +4,7 @@ from ..logger import logger
 from ..misc import Inputerror
 from ..sort_expr import exploit_perm_sym
 from ..symmetry import Permutation
+from ..sympy_objects import SymbolicTensor
 from ..tensor_names import tensor_names
 
 from .contraction import Contraction, term_memory_requirements
@@ -85,7 +86,10 @@ def generate_code(expr: Expr, target_indices: str,
         for term in sub_expr.terms:
             prefactor = format_prefactor(term, backend)
 
-            if not term.idx:  # term is just a prefactor
+            # term is just a prefactor: no indices and no tensor without
+            # indices (a scalar tensor has to show up in the code)
+            if not term.idx and not any(isinstance(o.base, SymbolicTensor)
+                                        for o in term.objects):
                 contraction_code.append(prefactor)
                 continue
             if len({idx.spin for idx in term.idx}) > 1:
